@@ -54,3 +54,34 @@ Fixpoint failing_l2_from (i : Z) (cs : list l2case) : list Z :=
   | c :: r => if check_l2 c then failing_l2_from (i + 1) r else i :: failing_l2_from (i + 1) r
   end.
 Definition failing_l2 (cs : list l2case) : list Z := failing_l2_from 0 cs.
+
+(* ---- shape of the returned ndarray (the last lines of _getBH_level2): B.shape before the final
+   step is (L', M, K) ++ pixel shape, where L' = 1 with sumup and the pixel shape is (3,) after
+   pixel aggregation; squeeze=True applies np.squeeze, squeeze=False re-inserts the aggregated
+   pixel axis (np.expand_dims(B, axis=-2)) *)
+Definition pre_shape (L M : nat) (shapes : list (list nat)) (has_agg sumup : bool) : list nat :=
+  [if sumup then 1%nat else L; M; length shapes] ++ (if has_agg then [3%nat] else hd [] shapes).
+Definition np_squeeze (sh : list nat) : list nat := filter (fun n => negb (Nat.eqb n 1)) sh.
+Definition np_expand_m2 (sh : list nat) : list nat :=
+  firstn (length sh - 1) sh ++ [1%nat] ++ skipn (length sh - 1) sh.
+Definition result_shape (L M : nat) (shapes : list (list nat)) (has_agg sumup squeeze : bool) : list nat :=
+  let sh := pre_shape L M shapes has_agg sumup in
+  if squeeze then np_squeeze sh else if has_agg then np_expand_m2 sh else sh.
+
+Definition xpath_len (srcs : list xsrc) (sens : list xsens) : nat :=
+  max_path_len (O := OctOps) (list Z) (src_list srcs) sens.
+Definition xresult_shape (srcs : list xsrc) (sens : list xsens) (a : nat) (sumup squeeze : bool) :=
+  result_shape (length srcs) (xpath_len srcs sens) (map (@s_shape OctOps) sens)
+               (match agg_of a with None => false | Some _ => true end) sumup squeeze.
+
+Record l2shape := mkL2S { h_srcs : list xsrc; h_sens : list xsens; h_agg : nat; h_sumup : bool;
+                          h_shape_nosq : list nat; h_shape_sq : list nat }.
+Definition check_l2shape (c : l2shape) : bool :=
+  list_eqb Nat.eqb (xresult_shape (h_srcs c) (h_sens c) (h_agg c) (h_sumup c) false) (h_shape_nosq c) &&
+  list_eqb Nat.eqb (xresult_shape (h_srcs c) (h_sens c) (h_agg c) (h_sumup c) true) (h_shape_sq c).
+Fixpoint failing_l2shape_from (i : Z) (cs : list l2shape) : list Z :=
+  match cs with
+  | [] => []
+  | c :: r => if check_l2shape c then failing_l2shape_from (i + 1) r else i :: failing_l2shape_from (i + 1) r
+  end.
+Definition failing_l2shape (cs : list l2shape) : list Z := failing_l2shape_from 0 cs.
